@@ -111,7 +111,19 @@ class Ctx:
                 ok = probe.check("p") == 1 and probe.elements_added == 1
                 ok = ok and CountMinSketch.frombytes(bytes(probe), hash_function=lambda k, d=1: list(range(d))).check("p") == 1
                 probe.remove("p", 1)
-                self.patch_ok = ok and probe.check("p") == 0
+                ok = ok and probe.check("p") == 0
+                # ... and do remove and join read the patched limits as well (an implementation may have captured the real ones at import time)?
+                hi, lo = lim["cellmax"], lim["cellmin"]
+                one = lambda k, d=1: [0] * d  # noqa
+                a, b = CountMinSketch(width=1, depth=1, hash_function=one), CountMinSketch(width=1, depth=1, hash_function=one)
+                a.add("p", hi - 1)
+                b.add("p", 2)
+                a.join(b)                       # clamped at the patched upper limit
+                ok = ok and a.check("p") == hi
+                b.remove("p", 2 - lo + 1)       # clamped at the patched lower limit
+                ok = ok and b.check("p") == lo
+                a.join(b)                       # a pinned cell is left alone by a join (the limit it compares with is the patched one too)
+                self.patch_ok = ok and a.check("p") == hi
             except Exception:  # noqa
                 self.patch_ok = False
         self.kind, self.mode = params["kind"], params["mode"]
